@@ -6,6 +6,7 @@ package sim
 import (
 	"crypto/sha256"
 	"encoding/binary"
+	"encoding/hex"
 	"errors"
 	"io"
 )
@@ -39,6 +40,27 @@ type Rand struct {
 	Override map[int][]byte
 	// Force4 is consumed by successive 4-byte reads (instance-tag generation) before the DRBG is used
 	Force4 [][]byte
+	// Force40 is consumed by successive 40-byte reads (D-H exponents) before the DRBG is used
+	Force40 [][]byte
+}
+
+// ShortExps are 320-bit exponents x for which g^x mod p has a zero top byte (found by search; an honest party
+// draws one by chance once in 256 keys): the public value is a byte shorter than usual on the wire.
+var ShortExps = [][]byte{
+	mustHex("c6f9d3e916b17bd7251a89ef2db276e4a62ac5316ef18798bdc4cc9ad0442af622ef3d90bf916c82"),
+	mustHex("a5d6d779aee345dc02191f2ce6ec0884dcdcaf5b1d528758c019b3390eadb1833f1f57bd4dcce46f"),
+	mustHex("bf113e01607c02d944be7906a4cd4bcd72fd565a14dad0290c6b8874b37189016216778ace6659d0"),
+	mustHex("fa88c211a5d694fb837aa1e209b06b86ec4f1ea3fde4f91b84bad61f6d6db866bc7bebae2703090b"),
+	mustHex("8c97c9e0db858dd7a4e50b9c2afd074bf2e36910a90bf8465f62093d7b87b0bfd1207567e6cb901f"),
+	mustHex("45c0ec9c26b58028d3fa9097e92db3049598ce23aa1c6ab020472c439fa2656c333d2ee564292372"),
+}
+
+func mustHex(s string) []byte {
+	b, err := hex.DecodeString(s)
+	if err != nil {
+		panic(err)
+	}
+	return b
 }
 
 // NewRand creates a healthy source.
@@ -86,7 +108,10 @@ func (r *Rand) Read(p []byte) (int, error) {
 		}
 	}
 	var data []byte
-	if len(p) == 4 && len(r.Force4) > 0 {
+	if len(p) == 40 && len(r.Force40) > 0 {
+		data = append([]byte{}, r.Force40[0]...)
+		r.Force40 = r.Force40[1:]
+	} else if len(p) == 4 && len(r.Force4) > 0 {
 		data = append([]byte{}, r.Force4[0]...)
 		r.Force4 = r.Force4[1:]
 	} else if o, ok := r.Override[i]; ok && len(o) == len(p) {
